@@ -45,7 +45,7 @@ Theorem c19_trait : forall v attr h t items,
   exists a0 tr ds im rest wrest,
     parse_trait_attr attr = Ok a0 /\
     parts (InTrait h t) items = Some (GTrait tr ds im) /\
-    p_items (g_params (i_gen im)) = impl_t_param false :: rest /\
+    filter nonlife (p_items (g_params (i_gen im))) = impl_t_param false :: rest /\
     g_where (i_gen im) =
       Some (p_of_list (mk_pred (impl_t_bounds (eff_trait_attr v a0) (trait_contains_async (t_items t)) (t_name t) (trait_tg t)) :: wrest)).
 Proof. exact c19_trait_params. Qed.
